@@ -771,6 +771,16 @@ TDump ==
                      [keys |-> SetToSeq((dir \ disk) \cup (disk \ dir)), at |-> 0]) ELSE <<>>
          c10 == IF ~WellFormedVer(real, files, NL)
                 THEN ObsViol(<<"C10">>, "IllFormed", [keys |-> <<>>, at |-> 0]) ELSE <<>>
+         \* the PUBLIC descriptors (NumFilesAtLevel, SSTables) must report the same layout
+         accNfl == [i \in 1..Len(Ev.levels) |-> Len(Ev.levels[i])]
+         accSst == [i \in 1..Len(Ev.levels) |->
+                      [j \in 1..Len(Ev.levels[i]) |-> <<Ev.levels[i][j].f, Ev.levels[i][j].size>>]]
+         d10 == IF "descr" \notin DOMAIN Ev THEN <<>>
+                ELSE IF Ev.descr # "ok"
+                THEN ObsViol(<<"C10", "C09">>, "DescriptorFailed", [keys |-> <<>>, at |-> 0])
+                ELSE IF Ev.nfl # accNfl \/ Ev.sst # accSst
+                THEN ObsViol(<<"C10">>, "DescriptorDisagrees", [keys |-> Ev.nfl, at |-> 0])
+                ELSE <<>>
          quiet == Ev.pins = 0 /\ Ev.nsnaps = 0 /\ ~Ev.imm /\ ~Ev.bad
          extra == {d[2] : d \in {x \in dir \ ExpectedDir : x[1] = "table"}}
          c11 == IF quiet /\ dir # ExpectedDir
@@ -781,7 +791,7 @@ TDump ==
                      ELSE ObsViol(<<"C11">>, "DirNotExact",
                             [keys |-> SetToSeq((dir \ ExpectedDir) \cup (ExpectedDir \ dir)), at |-> Ev.live])
                 ELSE <<>> IN
-     JudgeAnd((((b1 \o b2) \o b3) \o c10) \o c11)
+     JudgeAnd(((((b1 \o b2) \o b3) \o c10) \o d10) \o c11)
   /\ Step(FALSE, "")
   /\ UNCHANGED <<coreVars, runInfo, keep, lastIter, manNo, isOpen, flushed, gpins, deferred, ackStore, inflight>>
 
